@@ -36,11 +36,15 @@ struct RunResult
     int unsupported_ops = 0; // e.g. AVX-512 variant in a build without it
     std::map<int, std::vector<sim::Switch>> recorded; // op index -> decisions of its main execution (when g_record)
     bool recorded_truncated = false;
+    std::vector<uint64_t> op_digest; // per op: digest of the outputs of its simulated execution
 };
 
 extern bool g_record;
 extern bool g_trace_ops;
-RunResult run_plan(const plan::Plan &p);
+RunResult run_plan(const plan::Plan &p, uint64_t garbage_salt = 0);
+// run_plan, and for plans with garbage_differential a second execution under different garbage fills
+// whose per-op outputs must be identical (uninitialised-read oracle)
+RunResult run_plan_checked(const plan::Plan &p);
 js::Value result_json(const RunResult &r, bool with_detail);
 bool init(std::string &err); // oracle tables + self-check
 } // namespace exec
